@@ -283,6 +283,12 @@ class AttrParser(BaseParser):
 
         elif issubclass(attr_def, ParametrizedAttribute):
             param_list = attr_def.parse_parameters(self)
+            num_params = len(attr_def.get_irdl_definition().parameters)
+            if len(param_list) != num_params:
+                self.raise_error(
+                    f"'{attr_name}' expects {num_params} parameters, "
+                    f"got {len(param_list)}"
+                )
             return attr_def.new(param_list)
         elif issubclass(attr_def, Data):
             _attr_def = cast(type[Data[Any]], attr_def)
@@ -1271,7 +1277,7 @@ class AttrParser(BaseParser):
             self.raise_error(
                 "Complex value must be either (float, float) or (int, int)"
             )
-        token = self._consume_token(MLIRTokenKind.R_PAREN)
+        token = self._parse_token(MLIRTokenKind.R_PAREN, "Expected ')'")
         end = token.span.end
         value = (real, imag)
         span = Span(start, end, input)
